@@ -26,7 +26,13 @@ def run(ctx):
             ctx.traces_validated += 1
             if r.get("modrefused"):
                 continue
-            bad = {k: v for k, v in r["got"].items() if v != r["want"]}
+            # the property compares the decoded program with the original one: where the direct run itself departs
+            # from the reference semantics (that is C02's business, see its known finding) the direct run is the yardstick
+            want = r["want"]
+            direct = r["got"].get("default")
+            if direct is not None and direct != want and not direct.startswith(("COMPILE", "PANIC")):
+                want = direct
+            bad = {k: v for k, v in r["got"].items() if v != want}
             if bad:
                 ctx.violation(key, "%s: %s != reference %s\n%s" % (json.dumps(r["id"]), json.dumps(bad)[:500], r["want"][:300], r["src"]),
                               dict(kind="sem", id=r["id"], src=r["src"], want=r["want"]))
